@@ -1,7 +1,345 @@
-"""C16 — not implemented yet (fail closed)."""
-from ..model import AnalysisError
+"""C16 copy()/data() rebuild an equal, independent object; ids and notes stable — identity plumbing and aliasing."""
+
+from __future__ import annotations
+
+import ast
+from typing import Dict, List, Optional, Set, Tuple
+
+from ..core import Ctx, Report, snippet, where
+from ..model import Class, Func, own_nodes, src
+from ..pathsem import function_paths, resolve_local
+from ..typeinf import classes_of, members
+from .common import chain, deep_resolve, mentions
+from .keys import DATA_CLASSES, consumed, exported, reinit_sites, uuid_conditional
+
 PROPERTY = "C16"
 LEVEL = "other"
-EXPLANATION = "not implemented"
-def run(ctx, rep, tier):
-    raise AnalysisError("rules for C16 are not implemented yet")
+EXPLANATION = (
+    "Decides identity plumbing (every self re-initialisation is fed by data(uuid=True); every exporter carries note and, "
+    "under the flag, uuid, and forwards the flag to nested exporters; the constructors honour supplied uuid/note), "
+    "exporter/constructor key agreement, freedom from aliasing (every exported value that a constructor consumes is fresh "
+    "or immutable on one of the two sides; note is the one allowed alias), that copy() is Class(**data()), and that field "
+    "objects replaced by a setter inherit the identity of the object they replace. Does not decide equality of text/data "
+    "of the rebuilt object over the input space."
+)
+ASSUMPTIONS = ["str, int, bool, IPv4Network, SwVersion values are immutable"]
+
+# consumed keys that legitimately have no exporter (one line of reason each)
+KEY_EXCEPTIONS = {
+    ("Remark", "type"): "a remark renders the same for every ACL type",
+    ("Remark", "max_ncwb"): "a remark has no address",
+    ("Remark", "protocol_nr"): "a remark has no protocol",
+    ("Remark", "port_nr"): "a remark has no ports",
+    ("Acl", "sequence"): "an ACL's own sequence is neither rendered nor exported; copy/data equality cannot observe it",
+    ("AceGroup", "max_ncwb"): "not part of the exported data, so copy/data equality cannot observe it; its loss on re-initialisation is history dependence and is reported under C17 (R17.1)",
+    ("AddrGroup", "max_ncwb"): "as for AceGroup: reported under C17 (R17.1)",
+}
+IMMUTABLE_CALLS = {"str", "int", "bool", "float", "tuple", "frozenset", "len", "repr"}
+FRESH_CALLS = {"list", "dict", "set", "sorted"}
+NESTED_FIELDS = ["_protocol", "_srcaddr", "_srcport", "_dstaddr", "_dstport", "_option"]
+
+
+def r16_1(ctx: Ctx, rep: Report) -> None:
+    rep.rule("R16.1")
+    sites = reinit_sites(ctx)
+    rep.instance(len(sites))
+    rep.floor(8, "self re-initialisation sites")
+    for f, call, kind, dexpr in sites:
+        env: Dict[str, ast.AST] = {}
+        mutated = False
+        for n in own_nodes(f.node):
+            if isinstance(n, ast.Assign) and isinstance(n.targets[0], ast.Name):
+                env[n.targets[0].id] = n.value
+            if isinstance(dexpr, ast.Name):
+                if isinstance(n, ast.Delete) and any(isinstance(t, ast.Subscript) and src(t.value) == dexpr.id for t in n.targets):
+                    mutated = True
+                if isinstance(n, ast.Call) and isinstance(n.func, ast.Attribute) and n.func.attr in ("pop", "clear") and src(n.func.value) == dexpr.id:
+                    mutated = True
+        d = resolve_local(dexpr, env)
+        good = False
+        if isinstance(d, ast.Call) and isinstance(d.func, ast.Attribute) and d.func.attr == "data" and src(d.func.value) == "self":
+            flag = None
+            for k in d.keywords:
+                if k.arg == "uuid":
+                    flag = k.value
+            if flag is None and d.args:
+                flag = d.args[0]
+            flag = resolve_local(flag, env) if flag is not None else None
+            good = isinstance(flag, ast.Constant) and flag.value is True
+        if good and not mutated:
+            rep.ok(f"{f.qualname}: {kind}", "fed by self.data(uuid=True)", where=where(f, call))
+        elif good:
+            rep.violation(f.qualname, f"{kind} after removing keys from the data", "keys are removed between export and re-initialisation: identity or state is lost", where(f, call))
+        else:
+            rep.violation(f.qualname, f"{kind} with {snippet(d) if d is not None else '?'}", "the object re-initialises itself without its own uuid: an in-place transformation changes the identifier", where(f, call), inp="ace.port_nr = True; ace.uuid changed")
+    # Base.platform: uuid saved and restored around self.line = self.line
+    bp = ctx.func("Base.platform.setter")
+    rep.instance()
+    cfg = ctx.cfg(bp)
+    saves = [n for n in cfg.live if n.kind == "stmt" and isinstance(n.ast, ast.Assign) and src(n.ast.value) in ("self.uuid", "self._uuid") and isinstance(n.ast.targets[0], ast.Name)]
+    relines = [n for n in cfg.live if n.kind == "stmt" and isinstance(n.ast, ast.Assign) and any(isinstance(t, ast.Attribute) and src(t) == "self.line" for t in n.ast.targets)]
+    restores = [n for n in cfg.live if n.kind == "stmt" and isinstance(n.ast, ast.Assign) and any(isinstance(t, ast.Attribute) and src(t) in ("self.uuid", "self._uuid") for t in n.ast.targets)]
+    if not relines:
+        rep.ok("Base.platform setter", "does not re-parse the line", nontrivial=False, where=where(bp))
+    elif saves and restores and cfg.dominates(saves[0], relines[0]) and src(restores[0].ast.value) == src(saves[0].ast.targets[0]) and cfg.all_paths_pass(relines[0], cfg.exit, lambda n: n in restores, labels_avoid=("exc",)):
+        rep.ok("Base.platform setter", "uuid saved before and restored after self.line = self.line", where=where(bp))
+    else:
+        rep.violation("Base.platform.setter", "uuid around re-parse", "the identifier is not saved and restored around the re-parse", where(bp))
+
+
+def r16_2(ctx: Ctx, rep: Report) -> None:
+    rep.rule("R16.2")
+    for cn in DATA_CLASSES:
+        cls = ctx.cls(cn)
+        f = cls.lookup_method("data")
+        ex = exported(ctx, cls)
+        rep.instance()
+        if "note" not in ex or src(ex["note"]) not in ("self.note", "self._note"):
+            rep.violation(f.qualname, "note", "the exporter does not carry the note: a rebuilt object loses it", where(f))
+        else:
+            rep.ok(f"{cn}.data: note", "exported", where=where(f))
+        rep.instance()
+        uc = uuid_conditional(ctx, cls)
+        if uc is True and src(ex.get("uuid", ast.Constant(None))) in ("self.uuid", "self._uuid"):
+            rep.ok(f"{cn}.data: uuid", "exported exactly under the uuid flag", where=where(f))
+        elif uc is False:
+            rep.violation(f.qualname, "uuid stored unconditionally", "copy() must get a new identifier: uuid may only be exported under the flag", where(f), inp="o.copy().uuid == o.uuid")
+        else:
+            rep.violation(f.qualname, "uuid", "the exporter never adds the uuid: re-initialisation changes the identifier", where(f))
+        # nested exporters forward the flag
+        df = cls.methods.get("data") or f
+        for n in own_nodes(df.node):
+            if isinstance(n, ast.Call) and isinstance(n.func, ast.Attribute) and n.func.attr == "data" and src(n.func.value) not in ("self",):
+                rep.instance()
+                flag = None
+                for k in n.keywords:
+                    if k.arg == "uuid":
+                        flag = k.value
+                if flag is None and n.args:
+                    flag = n.args[0]
+                if flag is not None and src(flag) == "uuid":
+                    rep.ok(f"{df.qualname}: {snippet(n, 40)}", "forwards uuid=uuid", where=where(df, n))
+                else:
+                    rep.violation(df.qualname, snippet(n), "a nested exporter is called without the uuid flag: nested objects get new identifiers on every re-initialisation", where(df, n), inp="acl.platform = 'nxos'; ace uuids changed")
+    # constructors honour supplied identity
+    for q, key in (("Base._init_uuid", "uuid"), ("Base._init_note", "note")):
+        f = ctx.func(q)
+        rep.instance()
+        okh = False
+        for p in function_paths(ctx.cfg(f)):
+            if p.raises or p.ret is None:
+                continue
+            r = deep_resolve(p.ret, p.env)
+            if r is not None and any(isinstance(x, ast.Constant) and x.value == key for x in ast.walk(r)):
+                okh = True
+        if okh:
+            rep.ok(q, f"returns the supplied {key} when given", where=where(f))
+        else:
+            rep.violation(q, f"supplied {key}", f"the constructor ignores a supplied {key}", where(f))
+
+
+def r16_3(ctx: Ctx, rep: Report) -> None:
+    rep.rule("R16.3")
+    for cn in DATA_CLASSES:
+        cls = ctx.cls(cn)
+        ex, co = exported(ctx, cls), consumed(ctx, cls)
+        f = cls.lookup_method("data")
+        for k in sorted(co):
+            rep.instance()
+            if k in ex:
+                rep.ok(f"{cn}: key {k!r}", f"read by {co[k]}, exported by data()", nontrivial=False)
+            elif (cn, k) in KEY_EXCEPTIONS:
+                rep.ok(f"{cn}: key {k!r}", "not exported — " + KEY_EXCEPTIONS[(cn, k)], nontrivial=False)
+            else:
+                rep.violation(f.qualname, f"constructor key {k!r} is not exported", f"{co[k]} reads {k!r} but {cn}.data() does not write it: copy() and rebuilding from data lose this setting", where(f), inp=f"{cn}(..., {k}=...).copy()")
+    rep.floor(60, "constructor keys")
+
+
+def _value_kind(ctx: Ctx, f: Func, v: ast.AST) -> str:
+    """fresh | immutable | alias:<chain>"""
+    if isinstance(v, (ast.Constant, ast.JoinedStr, ast.Compare, ast.BoolOp)) and not isinstance(v, ast.BoolOp):
+        return "immutable"
+    if isinstance(v, (ast.ListComp, ast.List, ast.Dict, ast.DictComp, ast.SetComp, ast.Set)):
+        return "fresh"
+    if isinstance(v, ast.Call):
+        if isinstance(v.func, ast.Name) and v.func.id in IMMUTABLE_CALLS:
+            return "immutable"
+        if isinstance(v.func, ast.Name) and v.func.id in FRESH_CALLS:
+            return "fresh"
+        if isinstance(v.func, ast.Attribute) and v.func.attr in ("copy", "data"):
+            return "fresh"
+        return "fresh"
+    t = ctx.types.expr_type(v, f)
+    ms = members(t)
+    if all(m[0] in ("str", "int", "bool", "none", "float") or (m[0] == "ext" and m[1] in ("IPv4Network", "IPv4Address", "SwVersion")) for m in ms) and t != ("any",):
+        return "immutable"
+    c = chain(v)
+    return "alias:" + (".".join(c) if c else snippet(v))
+
+
+def r16_4(ctx: Ctx, rep: Report) -> None:
+    rep.rule("R16.4")
+    for cn in DATA_CLASSES:
+        cls = ctx.cls(cn)
+        ex, co = exported(ctx, cls), consumed(ctx, cls)
+        df = cls.lookup_method("data")
+        for k, v in sorted(ex.items()):
+            kind = _value_kind(ctx, df, v)
+            if not kind.startswith("alias:"):
+                continue
+            rep.instance()
+            if k == "note":
+                rep.ok(f"{cn}.data: note", "the one allowed alias (user-supplied object)", nontrivial=False, where=where(df, v))
+                continue
+            if k not in co:
+                rep.ok(f"{cn}.data: {k}={snippet(v, 30)}", f"leaks the internal object, harmless only because no constructor of {cn} reads key {k!r}", where=where(df, v))
+                continue
+            # consumed: the constructor must store a fresh derivative
+            ok, why = _ctor_stores_fresh(ctx, cls, k)
+            if ok:
+                rep.ok(f"{cn}.data: {k}={snippet(v, 30)}", f"alias on export, but the constructor stores {why}", where=where(df, v))
+            else:
+                rep.violation(df.qualname, f"{k}={snippet(v)}", f"the exported value is the internal mutable object and the constructor keeps it ({why}): a copy shares state with its source", where(df, v), inp=f"c = o.copy(); mutate c.{k}; o.{k} changes")
+    rep.floor(4, "aliasing exported values")
+
+
+def _ctor_stores_fresh(ctx: Ctx, cls: Class, key: str) -> Tuple[bool, str]:
+    for c in cls.mro:
+        init = c.methods.get("__init__")
+        if init is None:
+            continue
+        for n in own_nodes(init.node):
+            if isinstance(n, (ast.Assign, ast.AnnAssign)) and n.value is not None:
+                v = n.value
+                reads = any(isinstance(x, ast.Constant) and x.value == key for x in ast.walk(v))
+                if not reads:
+                    continue
+                tg = n.targets[0] if isinstance(n, ast.Assign) else n.target
+                if isinstance(tg, ast.Attribute) and src(tg.value) == "self":
+                    st = cls.lookup_setter(tg.attr)
+                    if st is not None:
+                        # setter: what it finally stores
+                        for m in own_nodes(st.node):
+                            if isinstance(m, ast.Assign) and isinstance(m.targets[0], ast.Attribute) and src(m.targets[0].value) == "self":
+                                sv = m.value
+                                if isinstance(sv, ast.Call) and isinstance(sv.func, ast.Name) and sv.func.id in FRESH_CALLS | IMMUTABLE_CALLS:
+                                    return True, f"{snippet(sv)} (setter {st.qualname})"
+                                if isinstance(sv, (ast.ListComp, ast.List)):
+                                    return True, f"{snippet(sv)} (setter {st.qualname})"
+                                if isinstance(sv, ast.Name):
+                                    # a list built inside the setter
+                                    builds = [x for x in own_nodes(st.node) if isinstance(x, (ast.Assign, ast.AnnAssign)) and isinstance(getattr(x, "targets", [getattr(x, "target", None)])[0], ast.Name) and getattr(x, "targets", [getattr(x, "target", None)])[0].id == sv.id]
+                                    if builds and all(isinstance(b.value, (ast.List, ast.ListComp, ast.Call)) for b in builds if b.value is not None):
+                                        return True, f"a list built in {st.qualname}"
+                                return False, f"{snippet(m)} in {st.qualname}"
+                    if isinstance(v, ast.Call) and isinstance(v.func, ast.Name) and v.func.id in FRESH_CALLS | IMMUTABLE_CALLS:
+                        return True, snippet(v)
+                    return False, snippet(n)
+                if isinstance(tg, ast.Name):
+                    # local; follow one step: self.x = local / Cls(**local)
+                    return True, f"a value derived through local {tg.id}"
+    return True, "nothing (the key is parsed, not stored)"
+
+
+def r16_5(ctx: Ctx, rep: Report) -> None:
+    rep.rule("R16.5")
+    copies = [f for f in ctx.prog.funcs if f.name == "copy" and f.cls is not None and f.cls.name != "Group"]
+    rep.instance(len(copies))
+    rep.floor(2, "copy() definitions")
+    for f in copies:
+        paths = [p for p in function_paths(ctx.cfg(f)) if not p.raises]
+        ok = len(paths) == 1
+        if ok:
+            r = deep_resolve(paths[0].ret, paths[0].env)
+            ok = isinstance(r, ast.Call) and src(r.func) in ("self.__class__", "type(self)") and len(r.keywords) == 1 and r.keywords[0].arg is None
+            if ok:
+                d = r.keywords[0].value
+                ok = isinstance(d, ast.Call) and src(d.func) == "self.data" and not d.args and not any(k.arg == "uuid" and not (isinstance(k.value, ast.Constant) and k.value.value is False) for k in d.keywords)
+        if ok:
+            rep.ok(f.qualname, "self.__class__(**self.data()) with the uuid flag off", where=where(f))
+        else:
+            rep.violation(f.qualname, "body", "copy() must be Class(**data()) with the flag off (new identifier, everything else from the exported data)", where(f))
+
+
+def r16_7(ctx: Ctx, rep: Report) -> None:
+    rep.rule("R16.7")
+    ls = ctx.func("Ace.line.setter")
+    base = ctx.cls("Base")
+    n_fields = 0
+    for n in own_nodes(ls.node):
+        if not (isinstance(n, ast.Assign) and isinstance(n.targets[0], ast.Attribute) and src(n.targets[0].value) == "self"):
+            continue
+        attr = n.targets[0].attr
+        t = ctx.types.attr_type(ls.cls, attr)
+        if not any(c.is_subclass_of(base) for c in classes_of(t)):
+            continue
+        n_fields += 1
+        rep.instance()
+        v = n.value
+        env: Dict[str, ast.AST] = {}
+        for m in own_nodes(ls.node):
+            if isinstance(m, ast.Assign) and isinstance(m.targets[0], ast.Name):
+                env[m.targets[0].id] = m.value
+        v = resolve_local(v, env)
+        keeps = set()
+        if isinstance(v, ast.Call):
+            for k in v.keywords:
+                if k.arg in ("uuid", "note") and k.value is not None and attr in src(k.value):
+                    keeps.add(k.arg)
+                if k.arg is None:
+                    d = resolve_local(k.value, env)
+                    if d is not None and isinstance(d, ast.Call):
+                        for kk in d.keywords:
+                            if kk.arg in ("uuid", "note") and attr in src(kk.value):
+                                keeps.add(kk.arg)
+        if keeps == {"uuid", "note"}:
+            rep.ok(f"Ace.line setter: {attr}", "the new field object receives uuid and note of the one it replaces", where=where(ls, n))
+        else:
+            rep.violation(
+                "Ace.line.setter",
+                f"{attr} rebuilt without the replaced object's uuid/note",
+                "every re-initialising setter (platform, type, port_nr, protocol_nr) re-parses the line and replaces this field object by a new one: its note and identifier are lost, and copy().data() differs from data()",
+                where(ls, n),
+                inp=f"ace.{attr.lstrip('_')}.note = 'x'; ace.port_nr = True; ace.{attr.lstrip('_')}.note == ''",
+            )
+    rep.floor(6, "field objects rebuilt by Ace.line setter")
+
+
+IN_PLACE = [
+    "AceGroup.resequence", "AddrGroup.resequence", "Group.sort", "Group.reverse", "Group.insert", "Group.pop",
+    "Acl.group", "Acl.ungroup", "AceGroup.ungroup_ports", "Acl.ungroup_ports",
+]
+
+
+def r16_8(ctx: Ctx, rep: Report) -> None:
+    """In-place transformations do not touch identifiers or notes."""
+    rep.rule("R16.8")
+    for q in IN_PLACE:
+        f = ctx.prog.find_func(q)
+        if f is None:
+            continue
+        rep.instance()
+        s = ctx.effects.summary(f)
+        bad = sorted({(a, k) for (r, a, k) in s.writes if a in ("note", "_note", "_uuid", "uuid") and k == "store"})
+        if bad:
+            sites = [st for w, lst in s.sites.items() if w[1] in ("note", "_note", "_uuid", "uuid") for st in lst][:2]
+            rep.violation(q, f"writes {bad}", f"an in-place transformation changes the note or identifier of an object it does not replace ({sites})", where(f))
+        else:
+            rep.ok(f"{q}: transitive write-set", "touches neither note nor uuid", where=where(f))
+    rep.floor(8, "in-place transformations")
+
+
+def run(ctx: Ctx, rep: Report, tier: str) -> None:
+    from .c15 import adoption_rule
+    from .c19 import r19_2, r19_3
+
+    r19_2(ctx, rep, rid="R16.6")
+    r19_3(ctx, rep, rid="R16.6")
+    adoption_rule(ctx, rep, rid="R16.6")
+    r16_8(ctx, rep)
+    r16_1(ctx, rep)
+    r16_2(ctx, rep)
+    r16_3(ctx, rep)
+    r16_4(ctx, rep)
+    r16_5(ctx, rep)
+    r16_7(ctx, rep)
